@@ -594,6 +594,57 @@ def run(ctx):
             out = out + ["configured on comment classes: " + ", ".join(sorted(conf)[:3])]
         return out
 
+    _RW = re.compile(r"(token_type_exists|does_token_type_exist_in_list_of_tokens|count_token_types_in_list_of_tokens)\(.*comment")
+
+    def _neg_region_test(guards):
+        return any(g.endswith(" is False") and _RW.search(g) for g in guards)
+
+    def fam_unguarded(fam, literals):
+        """For a whole-region replacement that is safe only because regions holding a comment never reach it: the places
+        of the family where such a region could still get through.  Either region selection keeps only regions that
+        failed a region-wide comment test, or every producer of the violation (of the action literal the fix site is
+        guarded by, when it has one) is dominated by the negative outcome of such a test.  [] = guarded."""
+        fk, ak, tk = fam
+        if tk and tk in p.functions and _rule_level(p.functions[tk]):
+            t = p.functions[tk]
+            tf = Facts(t.node)
+            keeps = []
+            for n in walk_function(t.node):
+                if isinstance(n, ast.Call) and isinstance(n.func, ast.Attribute) and n.func.attr == "append":
+                    keeps.append(_neg_region_test(_canon_guards(tf, n, t)))
+                if isinstance(n, ast.Return) and isinstance(n.value, ast.ListComp):
+                    conds = [c for g in n.value.generators for c in g.ifs]
+                    keeps.append(any(isinstance(c, ast.UnaryOp) and isinstance(c.op, ast.Not) and _RW.search(norm(c.operand)) for c in conds))
+            if keeps and all(keeps):
+                return []
+        fr, ar = fam_reach[fam]
+        out = []
+        n_sinks = 0
+        for k in sorted(ar | fr):
+            g = p.functions[k]
+            if not _rule_level(g) or k == fk:
+                continue
+            gf = None
+            for n in walk_function(g.node):
+                sink = False
+                if literals:
+                    if isinstance(n, ast.Call) and any(isinstance(a, ast.Constant) and a.value in literals for a in list(n.args) + [kw.value for kw in n.keywords]) and _callee_name(n) not in ("isinstance",):
+                        sink = True
+                    if isinstance(n, ast.Assign) and isinstance(n.value, ast.Constant) and n.value.value in literals and isinstance(n.targets[0], ast.Subscript):
+                        sink = True
+                elif isinstance(n, ast.Call) and _callee_name(n) == "add_violation":
+                    sink = True
+                if not sink:
+                    continue
+                n_sinks += 1
+                if gf is None:
+                    gf = Facts(g.node)
+                if not _neg_region_test(_canon_guards(gf, n, g)):
+                    out.append((g, n))
+        if not n_sinks:
+            return [(p.functions[fk], p.functions[fk].node)]
+        return out
+
     fix_roots = [m for ci in p.classes.values() for name, m in ci.methods.items() if name == "_fix_violation" and ci.key != "vsg.rule:Rule"]
     reach = cg.reachable(fix_roots)
 
@@ -681,7 +732,13 @@ def run(ctx):
         ent = r.tabled("C02.drop", kk) or moved_entry(r, "C02.drop", kk, wkeys, p)
         if ent:
             if ent.get("requires_family_guard"):
+                lits = set(re.findall(r"== '(\w+)' is True", kk))
                 bad = [fam for fam in fs if not fam_consult(fam)]
+                ung = [(fam, x) for fam in fs for x in fam_unguarded(fam, lits)]
+                if ung and not bad:
+                    fam0, (g0, n0) = ung[0]
+                    r.fail("C02.drop", kk + ":family-guard", "%s replaces its whole region; that is safe only while no region holding a comment reaches it, but %s can still report such a region (`%s` is not dominated by the negative outcome of a region-wide comment test, and region selection does not filter): the comment is deleted by the fix" % (fi.key, g0.key, norm(n0)[:60] if not isinstance(n0, ast.FunctionDef) else "no producer found"), g0.loc(n0) if not isinstance(n0, ast.FunctionDef) else g0.loc())
+                    continue
                 if bad:
                     r.fail("C02.drop", kk + ":family-guard", "%s replaces its whole region; that is safe only because region selection / analysis skips regions holding a comment, and the famil%s %s no longer look%s for one" % (fi.key, "y" if len(bad) == 1 else "ies", "; ".join(fam_label(f) for f in bad[:3]), "s" if len(bad) == 1 else ""), fi.loc(n))
                     continue
@@ -904,6 +961,14 @@ def run(ctx):
 
 _R = "vsg/rules/"
 VARIANTS = [
+    Variant("C02", "comment guard of the 'remove' violation replaced by a next-token test that skips comments", "fire",
+            [("vsg/rules/multiline_simple_structure.py", "            if utils.does_token_type_exist_in_list_of_tokens(parser.comment, lTokens[:iNextToken]):\n                return\n", "            if utils.are_next_consecutive_token_types_ignoring_whitespace([parser.comment], 1, lTokens):\n                return\n")],
+            rule="C02.drop", key="family-guard"),
+    Variant("C02", "twin: comment guard of the 'remove' violation written as a nested if", "silent",
+            [("vsg/rules/multiline_simple_structure.py", "            if utils.does_token_type_exist_in_list_of_tokens(parser.comment, lTokens[:iNextToken]):\n                return\n            sSolution = \"Move code after assignment to the same line as assignment.\"\n            oViolation = _create_violation(oToi, iLine, 0, iNextToken, \"new_line_after_assign\", \"remove\", sSolution)\n            self.add_violation(oViolation)", "            if not utils.does_token_type_exist_in_list_of_tokens(parser.comment, lTokens[:iNextToken]):\n                sSolution = \"Move code after assignment to the same line as assignment.\"\n                oViolation = _create_violation(oToi, iLine, 0, iNextToken, \"new_line_after_assign\", \"remove\", sSolution)\n                self.add_violation(oViolation)")]),
+    Variant("C02", "label-removal rules keep regions that hold a comment", "fire",
+            [("vsg/rules/remove_tokens_bounded_by_tokens_and_remove_trailing_whitespace.py", "        return [oToi for oToi in lToi if not oToi.token_type_exists(parser.comment)]", "        return [oToi for oToi in lToi if not oToi.token_type_exists(parser.comment) or len(oToi.get_tokens()) < 4]")],
+            rule="C02.drop", key="family-guard"),
     Variant("C02", "line-joining rule loses its comment guard", "fire",
             [(_R + "remove_carriage_return_after_token.py", "                    if isinstance(oToken, parser.comment):\n                        break\n", "")], rule="C02.join"),
     Variant("C02", "label removal without comment guard", "fire",
